@@ -347,6 +347,10 @@ func (fa *Facts) transfer(in DNF, pred, succ *ssa.BasicBlock, predIdx int) DNF {
 				}
 				continue
 			}
+			if b, ok := phi.Type().Underlying().(*types.Basic); ok && b.Info()&types.IsString != 0 {
+				// provenance of string-valued phis (user names etc.): on this path the phi IS the operand
+				add = append(add, Fact{Op: token.EQL, X: phi, Y: op})
+			}
 			for g := range n {
 				if g.X == op {
 					if g.Op == token.ILLEGAL {
